@@ -1434,6 +1434,20 @@ class SyncObj(object):
         else:
             data = None
         cluster = self.__otherNodes | {self.__selfNode}
+        if self.__conf.dynamicMembershipChange:
+            # Membership changes take effect when they are appended. The snapshot describes the state
+            # at the last applied position, so the changes after that position are taken back.
+            for entry in reversed(self.__getEntries(self.__raftLastApplied + 1)):
+                request = self.__parseChangeClusterRequest(entry[0])
+                if request is None:
+                    continue
+                node = request[2] if len(request) >= 3 else request[1]
+                if not isinstance(node, Node):
+                    node = self.__nodeClass(node)
+                if request[0] == 'add':
+                    cluster.discard(node)
+                elif request[0] == 'rem':
+                    cluster.add(node)
         self.__serializer.serialize((data, lastAppliedEntries[1], lastAppliedEntries[0], cluster), lastAppliedEntries[0][1])
 
     def __loadDumpFile(self, clearJournal):
